@@ -17,6 +17,7 @@ func (e *Engine) preludeDecls() []string {
 		"(declare-fun slen (Int) (_ BitVec 64))",
 		"(declare-fun strarr (Int) (Array (_ BitVec 64) (_ BitVec 8)))",
 		"(declare-fun ismapped (Int (_ BitVec 64)) Bool)",
+		"(declare-fun isptrtag (Int) Bool)",
 	}
 }
 
